@@ -192,3 +192,6 @@ REQUIRED_THEOREMS["C04"] += ["C04_step_addEdge", "C04_frame_addEdge", "C04_step_
                              "C04_valid_uDeleteEdge", "C04_valid_uAddEdge", "C04_valid_uSwap"]
 REQUIRED_THEOREMS["C05"] += ["C05_frame_swap"]
 REQUIRED_THEOREMS["C06"] += ["C06_book_uAddEdge", "C06_book_uSwap"]
+REQUIRED_THEOREMS["C01"] += ["C01_prim_updTid", "C01_prim_updTid_again", "C01_prim_updTid_law", "C01_prim_updTid_view",
+                             "C01_prim_updTid_obs", "C01_updTid_rec_inverse", "C01_updTid_pre", "C01_group_wf",
+                             "C01_note_updTid_needs_fresh", "C01_note_updTid_needs_lineage", "C01_note_updTid_needs_wf"]
